@@ -267,9 +267,18 @@ def r3(ctx):
                      key=f'{cls}:match-hash:{len(comps)}', nontrivial=False, what=f'{cls}: match hash lacks a component')
         # decision table: different match hash -> False; same hash -> the UMI comparison decides (possibly after further tests)
         from ..util import explore, mk_atoms
-        r_diff = explore(eqf.body, mk_atoms({'self.match_hash != other.match_hash': True}))
-        r_same = explore(eqf.body, mk_atoms({'self.match_hash != other.match_hash': False}))
-        ok = bool(r_diff) and all(r['kind'] == 'return' and src(r['stmt'].value) == 'False' for r in r_diff) and \
+        from ..cfg import eval3, UNK
+        a_diff = mk_atoms({'self.match_hash != other.match_hash': True, 'self.match_hash == other.match_hash': False, 'other.match_hash != self.match_hash': True, 'other.match_hash == self.match_hash': False})
+        a_same = mk_atoms({'self.match_hash != other.match_hash': False, 'self.match_hash == other.match_hash': True, 'other.match_hash != self.match_hash': False, 'other.match_hash == self.match_hash': True})
+        r_diff = explore(eqf.body, a_diff)
+        r_same = explore(eqf.body, a_same)
+
+        def is_false(r):
+            if r['kind'] != 'return':
+                return False
+            v = eval3(r['stmt'].value, {}, a_diff)
+            return v is not UNK and v is False or src(r['stmt'].value) == 'False'
+        ok = bool(r_diff) and all(is_false(r) for r in r_diff) and \
             bool(r_same) and any(r['kind'] == 'return' and 'self.umi_eq(other)' in src(r['stmt'].value) for r in r_same)
         ctx.emit('C06-R3', ok, relpath, eqf, f'{cls}.__eq__ compares the match hash and the UMIs', key=f'{cls}:eq', nontrivial=False)
     ch = ctx.fn(FRAG_CHIC, 'CHICFragment.__eq__')
